@@ -1523,4 +1523,6 @@ FUNCTIONS += [
     dict(name='range_printers', cxx='the *_printer structs of matcher/range.hpp', file=RANGE, kind='printers', module='RangePrinters', header=''),
     dict(name='set_predicate_printers', cxx='the *_printer structs of matcher/set_predicate.hpp', file=SETP, kind='printers',
          module='SetPredicatePrinters', header=''),
+    dict(name='member_is_printer', cxx='the printer lambda of match_member_is (matcher/member_is.hpp)', file='include/trompeloeil/matcher/member_is.hpp',
+         kind='printers', functions=['match_member_is'], module='MemberIsPrinter', header=''),
 ]
